@@ -16,6 +16,7 @@ pub struct World {
     pub seqno: u64, pub visible: u64,   // the two shared counters
     pub recovering: bool,               // no other thread has a handle yet
     pub level_violations: Seq<(u64, u64)>,
+    pub next_ks_id: u64,                // Database.keyspace_id_counter: the next internal keyspace id to hand out
 }
 /// which registered keyspace a journaled id resolves to at replay time (C12: unknown ids are skipped)
 pub open spec fn resolve(w: World, id: u64) -> Option<u64> {
@@ -177,12 +178,29 @@ impl SequenceNumberCounter {
 pub struct WriteBufferManager { pub dummy: u8 }
 impl WriteBufferManager { #[verifier::external_body] pub fn allocate(&self, n: u64) -> (r: u64) { unimplemented!() } }
 pub struct Supervisor { pub seqno: SequenceNumberCounter, pub write_buffer_size: WriteBufferManager }
-pub struct Database { pub meta_keyspace: MetaKeyspace, pub supervisor: Supervisor }
+// Database.keyspace_id_counter (a SequenceNumberCounter used as id allocator)
+pub struct IdCounter { pub dummy: u8 }
+impl IdCounter {
+    #[verifier::external_body]
+    pub fn fetch_max(&self, v: u64, Tracked(w): Tracked<&mut World>) -> (r: u64)
+        ensures *final(w) == (World { next_ks_id: if v > old(w).next_ks_id { v } else { old(w).next_ks_id }, ..*old(w) }),
+    { unimplemented!() }
+}
+pub struct Database { pub meta_keyspace: MetaKeyspace, pub supervisor: Supervisor, pub keyspace_id_counter: IdCounter }
+/// P-ID (C12): every keyspace id that occurs in a replayed journal record is below the id counter, so it is never handed out again
+pub open spec fn ids_below(b: BatchV, n_items: int, n_cleared: int, c: u64) -> bool {
+    (forall|j: int| 0 <= j < n_items ==> (#[trigger] b.items[j]).keyspace_id < c) && (forall|j: int| 0 <= j < n_cleared ==> (#[trigger] b.cleared[j]) < c)
+}
+pub open spec fn all_ids_below(bs: Seq<BatchV>, n: int, c: u64) -> bool {
+    forall|i: int| 0 <= i < n ==> ids_below(#[trigger] bs[i], bs[i].items.len() as int, bs[i].cleared.len() as int, c)
+}
+/// ASSUMED about journal content: no record carries the id u64::MAX (ids are drawn from a counter that starts at 1)
+pub open spec fn ids_valid(bs: Seq<BatchV>) -> bool { all_ids_below(bs, bs.len() as int, u64::MAX) }
 
 pub open spec fn no_indirection(bs: Seq<BatchV>) -> bool {
     forall|i: int, j: int| 0 <= i < bs.len() && 0 <= j < bs[i].items.len() ==> (#[trigger] bs[i].items[j]).value_type != ValueType::Indirection
 }
-/// only the trees change during replay
+/// only the trees change during replay (and the keyspace id counter grows)
 pub open spec fn replay_frame(o: World, n: World) -> bool {
-    n == (World { trees: n.trees, ..o }) && (forall|k: u64| #[trigger] n.trees.dom().contains(k) <==> o.trees.dom().contains(k))
+    n == (World { trees: n.trees, next_ks_id: n.next_ks_id, ..o }) && n.next_ks_id >= o.next_ks_id && (forall|k: u64| #[trigger] n.trees.dom().contains(k) <==> o.trees.dom().contains(k))
 }
